@@ -45,16 +45,22 @@ func (storer *InMemoryStorer) GetValues() map[string]Value {
 
 // SetNumberValue stores a number.
 func (storer *InMemoryStorer) SetNumberValue(variableName string, value float64) {
+	delete(storer.booleans, variableName)
+	delete(storer.strings, variableName)
 	storer.numbers[variableName] = value
 }
 
 // SetBooleanValue stores a boolean.
 func (storer *InMemoryStorer) SetBooleanValue(variableName string, value bool) {
+	delete(storer.numbers, variableName)
+	delete(storer.strings, variableName)
 	storer.booleans[variableName] = value
 }
 
 // SetStringValue stores a string.
 func (storer *InMemoryStorer) SetStringValue(variableName string, value string) {
+	delete(storer.numbers, variableName)
+	delete(storer.booleans, variableName)
 	storer.strings[variableName] = value
 }
 
